@@ -13,7 +13,7 @@ def run(res, tier, seed):
     exe = C17.build()
     os.makedirs(os.path.join(vlib.BUILD, 'traces'), exist_ok=True)
     n = 300 if not thorough else 6000
-    jobs = [('pool', 'plain', n), ('pool', 'fixed', n), ('pool', 'fail', n), ('pool', 'fail', n), ('pool', 'failp', n), ('oom', '', max(40, n // 6))]
+    jobs = [('pool', 'plain', n), ('pool', 'fixed', n), ('pool', 'fail', n), ('pool', 'fail', n), ('pool', 'failp', n), ('pool', 'freefail', n), ('oom', '', max(40, n // 6))]
     cmds = []; tfs = []
     for k, (mode, sub, cnt) in enumerate(jobs):
         t = os.path.join(vlib.BUILD, 'traces', 'c18-%s-%d-%d.ndjson' % (mode, k, os.getpid())); tfs.append(t)
